@@ -20,6 +20,10 @@ INSTR_KINDS = [
     "Idle", "DispatchTrip", "DispatchStation", "ChargeStation", "ChargeBase",
     "DispatchBase", "ReserveBase", "OutOfService", "Reposition",
 ]
+# next states a custom controller may build itself (Instruction is a public extension point: a subclass returns an
+# InstructionResult with any next state and any route it likes; the activity's enter() is what has to refuse nonsense)
+RAW_KINDS = ["BoardNow", "QueueNow", "TripRoute", "StationRoute", "BaseRoute", "RepositionRoute"]
+RAW_ROUTES = ["direct", "from_elsewhere", "to_elsewhere", "empty", "reverse"]
 VCLASSES = ["any", "idle", "moving", "carrying", "charging", "queueing", "parked", "oos", "low", "dispatched"]
 TCLASSES = ["any", "here", "far", "full", "denied", "granted", "missing", "assigned"]
 MOVING = ("DispatchTrip", "ServicingTrip", "DispatchStation", "DispatchBase", "Repositioning")
@@ -61,6 +65,61 @@ def _mk_scripted():
     # HIVE's update_instruction_generator looks a generator up by its *class* name while the table is keyed by .name:
     # every scripted generator gets a class of its own, named like the generator
     return lambda nm: type(nm, (Scripted,), {})(nm)
+
+
+_RAW = None
+
+
+def _mk_raw():
+    """RawStateInstruction: a user-defined instruction that names the next activity itself, with a route planned by the controller"""
+    global _RAW
+    if _RAW is not None:
+        return _RAW
+    from dataclasses import dataclass
+
+    from nrel.hive.dispatcher.instruction.instruction import Instruction
+    from nrel.hive.dispatcher.instruction.instruction_result import InstructionResult
+    from nrel.hive.state.vehicle_state.charge_queueing import ChargeQueueing
+    from nrel.hive.state.vehicle_state.dispatch_base import DispatchBase
+    from nrel.hive.state.vehicle_state.dispatch_station import DispatchStation
+    from nrel.hive.state.vehicle_state.dispatch_trip import DispatchTrip
+    from nrel.hive.state.vehicle_state.repositioning import Repositioning
+    from nrel.hive.state.vehicle_state.servicing_trip import ServicingTrip
+    from nrel.hive.util.exception import SimulationStateError
+
+    @dataclass(frozen=True)
+    class RawStateInstruction(Instruction):
+        vehicle_id: str
+        kind: str
+        target_id: str
+        charger_id: str
+        route_mode: str
+        other_id: str
+
+        def apply_instruction(self, sim, env):
+            v = sim.vehicles.get(self.vehicle_id)
+            k = self.kind
+            pool = sim.requests if k in ("BoardNow", "TripRoute") else sim.stations if k in ("QueueNow", "StationRoute") else sim.bases if k == "BaseRoute" else None
+            tgt = pool.get(self.target_id) if pool is not None else (sim.stations.get(self.target_id) or sim.bases.get(self.target_id))
+            if v is None or tgt is None:
+                return SimulationStateError(f"raw instruction names a missing entity ({self.vehicle_id}, {self.target_id})"), None
+            o = sim.stations.get(self.other_id) or sim.bases.get(self.other_id)
+            other = o.position if o is not None else v.position
+            rn = sim.road_network
+            a, b = v.position, (tgt.destination_position if k == "BoardNow" else tgt.position)
+            m = self.route_mode
+            route = (rn.route(a, b) if m == "direct" else rn.route(tgt.position if k == "BoardNow" else other, b) if m == "from_elsewhere"
+                     else rn.route(a, other) if m == "to_elsewhere" else () if m == "empty" else rn.route(b, a))
+            vid = self.vehicle_id
+            nxt = (ServicingTrip.build(vid, tgt, sim.sim_time, route) if k == "BoardNow" else
+                   ChargeQueueing.build(vid, tgt.id, self.charger_id, sim.sim_time) if k == "QueueNow" else
+                   DispatchTrip.build(vid, tgt.id, route) if k == "TripRoute" else
+                   DispatchStation.build(vid, tgt.id, route, self.charger_id) if k == "StationRoute" else
+                   DispatchBase.build(vid, tgt.id, route) if k == "BaseRoute" else Repositioning.build(vid, route))
+            return None, InstructionResult(v.vehicle_state, nxt)
+
+    _RAW = RawStateInstruction
+    return _RAW
 
 
 def _mk_capture():
@@ -112,6 +171,7 @@ class History:
         self.violation: Optional[Violation] = None
         self.retained: List[Tuple[Any, str]] = []
         self.request_memory: Dict[str, Any] = {}
+        self.scripted_request_targets: set = set()  # requests a scripted controller named in a DispatchTrip instruction, or a client re-offered
         self.reoffered: Dict[str, set] = {}  # request id -> DispatchTrip instances that were under way when it changed fleet
         self.dead = False  # set when HIVE crashed outside the property's mechanism: rest of the case is skipped
         self.anchor_files: Tuple[str, ...] = tuple(spec.get("_anchor_files", ()))
@@ -182,6 +242,8 @@ class History:
             self._op_restate(*op[1:])
         elif kind == "reoffer":
             self._op_reoffer(*op[1:])
+        elif kind == "raw":
+            self._op_raw(*op[1:])
         elif kind == "retain":
             self._op_retain()
         elif kind == "branch":
@@ -319,6 +381,8 @@ class History:
         i = self.build_instruction(kind, vclass, vsel, tclass, tsel, csel)
         self.scripted[gen % len(self.scripted)].queue.append(i)
         self.stats["instructions_queued"] += 1
+        if getattr(i, "request_id", None) is not None:
+            self.scripted_request_targets.add(i.request_id)  # requests some scripted controller has (tried to) dispatch a vehicle to
 
     def _op_rush(self, tsel: int, csel: int, k: int) -> None:
         """send up to k vehicles that are idle or parked to one (station, plug) in the same step"""
@@ -441,6 +505,57 @@ class History:
             if fn is not None:
                 self.report(fn(self, s, s2, instrs, s3))
 
+    def build_raw(self, rkind: int, vclass: int, vsel: int, tclass: int, tsel: int, csel: int, rsel: int):
+        sim = self.sim
+        k = RAW_KINDS[rkind % len(RAW_KINDS)]
+        v = self._pick_vehicle(vclass, vsel)
+        charger = ""
+        if k in ("BoardNow", "TripRoute"):
+            # boarding is only possible from a DispatchTrip: the request the vehicle is on its way to, when there is one
+            tid = v.vehicle_state.request_id if (k == "BoardNow" and sname(v) == "DispatchTrip" and tclass % 4) else self._pick_target(sim.requests, v, tclass, tsel, "request")
+        elif k in ("QueueNow", "StationRoute"):
+            tid = self._pick_target(sim.stations, v, tclass, tsel, "station")
+            charger = self._pick_charger(sim.stations.get(tid), v, csel)
+        elif k == "BaseRoute":
+            tid = self._pick_target(sim.bases, v, tclass, tsel, "base")
+        else:
+            ids = sorted(sim.stations.keys()) + sorted(sim.bases.keys())
+            tid = ids[tsel % len(ids)] if ids else "sX"
+        others = sorted(sim.stations.keys()) + sorted(sim.bases.keys())
+        other = others[(tsel + 1 + rsel // len(RAW_ROUTES)) % len(others)] if others else ""
+        return _mk_raw()(v.id, k, tid, charger, RAW_ROUTES[rsel % len(RAW_ROUTES)], other)
+
+    def _op_raw(self, mode: int, gen: int, rkind: int, vclass: int, vsel: int, tclass: int, tsel: int, csel: int, rsel: int) -> None:
+        """a custom controller's own instruction type (mode 0: queued with a scripted generator for the next step; 1: single-instruction probe)"""
+        from nrel.hive.reporting.reporter import Reporter
+        from nrel.hive.state.simulation_state.update.step_simulation_ops import apply_instructions
+
+        i = self.build_raw(rkind, vclass, vsel, tclass, tsel, csel, rsel)
+        if mode % 2 == 0:
+            if not self.scripted:
+                self.stats["directives_ignored_no_scripted_generator"] += 1
+                return
+            self.scripted[gen % len(self.scripted)].queue.append(i)
+            self.stats["instructions_queued"] += 1
+            self.stats["raw_instructions_queued"] += 1
+            if i.kind in ("BoardNow", "TripRoute"):
+                self.scripted_request_targets.add(i.target_id)
+            return
+        s = self.sim
+        try:
+            with quiet():
+                s2 = apply_instructions(s, self.env.set_reporter(Reporter()), (i,))
+        except Exception as exc:
+            self._crashed(exc)
+            return
+        self.stats["probes"] += 1
+        self.stats["raw_probes"] += 1
+        if s2.vehicles[i.vehicle_id].vehicle_state.instance_id != s.vehicles[i.vehicle_id].vehicle_state.instance_id:
+            self.flag("raw_instruction_accepted")
+            self.labels[f"raw_accepted:{i.kind}:{i.route_mode}"] += 1
+        for m in self.monitors:
+            self.report(m.after_probe(self, s, s2, i, i.vehicle_id))
+
     def _op_throttle(self, ssel: int, csel: int, fsel: int) -> None:
         """grid co-simulation style: limit a station's plug type to a fraction of its factory rate through the public
         Station.scale_charger_rate + modify_station_safe API (also in the middle of charging sessions; 0 = switched off)"""
@@ -517,6 +632,7 @@ class History:
         if isinstance(res, Success):
             under_way = {v.vehicle_state.instance_id for v in self.sim.vehicles.values() if sname(v) == "DispatchTrip" and v.vehicle_state.request_id == r.id}
             self.reoffered.setdefault(r.id, set()).update(under_way)
+            self.scripted_request_targets.add(r.id)
             self.rp = self.rp._replace(s=res.unwrap())
             self.stats["requests_reoffered"] += 1
             if under_way:
